@@ -298,3 +298,111 @@ Proof.
   unfold apply_middlewares. destruct entries as [|e es]; [cbn; now rewrite app_nil_r|].
   rewrite <- wrap_trace. rewrite <- fold_left_rev_right. rewrite rev_involutive. reflexivity.
 Qed.
+
+(* ---- registration with groups *)
+Lemma nth_error_set_nth_same {A} (l : list A) : forall i x, (i < List.length l)%nat -> nth_error (set_nth i x l) i = Some x.
+Proof. induction l as [|y r IH]; intros i x H; simpl in H; [lia|]. destruct i; simpl; [reflexivity|]. apply IH; lia. Qed.
+Lemma nth_error_set_nth_other {A} (l : list A) : forall i j x, i <> j -> nth_error (set_nth i x l) j = nth_error l j.
+Proof. induction l as [|y r IH]; intros i j x H; simpl; [reflexivity|].
+  destruct i, j; simpl; try reflexivity; [congruence|]. apply IH; congruence. Qed.
+Lemma set_nth_length {A} (l : list A) : forall i x, List.length (set_nth i x l) = List.length l.
+Proof. induction l as [|y r IH]; intros i x; simpl; [reflexivity|]. destruct i; simpl; [reflexivity|]. now rewrite IH. Qed.
+
+Definition rinv (rh : list rop) (s : rstate) : Prop :=
+  List.length (stacks s) = nservers_rev rh /\ nextid s = nmw_rev rh /\ routes s = spec_routes_rev rh /\
+  forall t, (t < nservers_rev rh)%nat -> nth_error (stacks s) t = Some (spec_stack_rev rh t).
+
+Lemma rinv_init : rinv [] rinit.
+Proof. repeat split. intros t H. simpl in H. destruct t; [reflexivity|lia]. Qed.
+
+Lemma rinv_step rh s o : rinv rh s -> rinv (o :: rh) (rstep s o).
+Proof.
+  intros (HL & HN & HR & HS). unfold rinv. destruct o as [t p|t|t]; simpl.
+  - destruct (nth_error (stacks s) t) as [st|] eqn:E.
+    + assert (Ht : (t < nservers_rev rh)%nat) by (rewrite <- HL; apply nth_error_Some; congruence).
+      assert (Hb : (t <? nservers_rev rh)%nat = true) by (apply Nat.ltb_lt; exact Ht).
+      rewrite Hb. repeat split; simpl.
+      * now rewrite set_nth_length.
+      * now rewrite HN.
+      * exact HR.
+      * intros u Hu. destruct (Nat.eqb_spec t u) as [->|Hne].
+        -- rewrite Hb. simpl. rewrite nth_error_set_nth_same by (rewrite HL; exact Hu).
+           rewrite HS in E by exact Hu. injection E as <-. now rewrite HN.
+        -- simpl. rewrite nth_error_set_nth_other by exact Hne. now apply HS.
+    + assert (Hb : (t <? nservers_rev rh)%nat = false).
+      { apply Nat.ltb_ge. rewrite <- HL. now apply nth_error_None. }
+      rewrite Hb. repeat split; auto. intros u Hu. rewrite Bool.andb_comm.
+      destruct (Nat.eqb_spec t u) as [->|Hne]; simpl.
+      * apply Nat.ltb_ge in Hb. lia.
+      * destruct (u <? nservers_rev rh)%nat; simpl; now apply HS.
+  - destruct (nth_error (stacks s) t) as [st|] eqn:E.
+    + assert (Ht : (t < nservers_rev rh)%nat) by (rewrite <- HL; apply nth_error_Some; congruence).
+      assert (Hb : (t <? nservers_rev rh)%nat = true) by (apply Nat.ltb_lt; exact Ht).
+      rewrite Hb. repeat split; simpl; auto.
+      * rewrite app_length. simpl. lia.
+      * intros u Hu. rewrite Bool.andb_true_r. destruct (Nat.eqb_spec u (nservers_rev rh)) as [->|Hne].
+        -- rewrite nth_error_app2 by lia. rewrite HL, Nat.sub_diag. simpl. rewrite HS in E by exact Ht. symmetry; exact E.
+        -- rewrite nth_error_app1 by lia. apply HS. lia.
+    + assert (Hb : (t <? nservers_rev rh)%nat = false).
+      { apply Nat.ltb_ge. rewrite <- HL. now apply nth_error_None. }
+      rewrite Hb. repeat split; auto. intros u Hu. rewrite Bool.andb_false_r. now apply HS.
+  - destruct (nth_error (stacks s) t) as [st|] eqn:E.
+    + assert (Ht : (t < nservers_rev rh)%nat) by (rewrite <- HL; apply nth_error_Some; congruence).
+      assert (Hb : (t <? nservers_rev rh)%nat = true) by (apply Nat.ltb_lt; exact Ht).
+      rewrite Hb. repeat split; simpl; auto. rewrite HR. rewrite HS in E by exact Ht. now injection E as <-.
+    + assert (Hb : (t <? nservers_rev rh)%nat = false).
+      { apply Nat.ltb_ge. rewrite <- HL. now apply nth_error_None. }
+      rewrite Hb. repeat split; auto.
+Qed.
+
+Lemma rinv_run h : forall rh s, rinv rh s -> rinv (rev h ++ rh)%list (fold_left rstep h s).
+Proof. induction h as [|o h IH]; intros rh s H; simpl; [exact H|].
+  rewrite <- app_assoc. simpl. apply IH. now apply rinv_step. Qed.
+
+Lemma reg_refines_spec_l h : rinv (rev h) (rrun h).
+Proof. unfold rrun. rewrite <- (app_nil_r (rev h)). apply rinv_run. exact rinv_init. Qed.
+
+Lemma reg_stack_l h t : (t < nservers h)%nat -> nth_error (stacks (rrun h)) t = Some (spec_stack h t).
+Proof. intros H. destruct (reg_refines_spec_l h) as (_ & _ & _ & HS). now apply HS. Qed.
+Lemma reg_routes_l h : routes (rrun h) = spec_routes h.
+Proof. now destruct (reg_refines_spec_l h) as (_ & _ & HR & _). Qed.
+
+(* independence, on the spec: only t's own middleware() changes what t holds *)
+Lemma reg_independent_l h o t : (t < nservers h)%nat -> (forall p, o <> RMw t p) ->
+  spec_stack (h ++ [o]) t = spec_stack h t.
+Proof.
+  unfold spec_stack, nservers. rewrite rev_app_distr. simpl. intros Ht Hn.
+  destruct o as [t' p|p|t']; simpl; auto.
+  - destruct (Nat.eqb_spec t' t) as [->|Hne]; simpl; auto. exfalso. now apply (Hn p).
+  - destruct (Nat.eqb_spec t (nservers_rev (rev h))) as [->|Hne]; simpl; auto. lia.
+Qed.
+Lemma reg_own_l h t p : (t < nservers h)%nat ->
+  exists k, spec_stack (h ++ [RMw t p]) t = (spec_stack h t ++ [{| prio := p; ident := k |}])%list.
+Proof.
+  unfold spec_stack, nservers. rewrite rev_app_distr. simpl. intros Ht.
+  rewrite Nat.eqb_refl. apply Nat.ltb_lt in Ht. rewrite Ht. simpl. eexists. reflexivity.
+Qed.
+Lemma reg_group_l h p : (p < nservers h)%nat ->
+  nservers (h ++ [RGroup p]) = S (nservers h) /\
+  spec_stack (h ++ [RGroup p]) (nservers h) = spec_stack h p.
+Proof.
+  unfold spec_stack, nservers. rewrite rev_app_distr. simpl. intros Hp.
+  apply Nat.ltb_lt in Hp. rewrite Hp, Nat.eqb_refl. simpl. auto.
+Qed.
+(* a route keeps the chain it was registered with, whatever is registered later *)
+Lemma spec_routes_prefix_l h h' : exists more, spec_routes (h ++ h') = (spec_routes h ++ more)%list.
+Proof.
+  unfold spec_routes. induction h' as [|o h' IH] using rev_ind.
+  - exists []. now rewrite !app_nil_r.
+  - destruct IH as [more IH]. rewrite app_assoc, rev_app_distr. simpl.
+    destruct o as [t p|p|t]; simpl; try (exists more; exact IH).
+    destruct (t <? nservers_rev (rev (h ++ h')))%nat.
+    + eexists. rewrite IH, <- app_assoc. reflexivity.
+    + exists more. exact IH.
+Qed.
+Lemma reg_route_l h t : (t < nservers h)%nat ->
+  spec_routes (h ++ [RRoute t]) = (spec_routes h ++ [spec_stack h t])%list.
+Proof.
+  unfold spec_routes, spec_stack, nservers. rewrite rev_app_distr. simpl. intros Ht.
+  apply Nat.ltb_lt in Ht. now rewrite Ht.
+Qed.
